@@ -525,7 +525,8 @@ class Kernel(object):
 
     # -------------------------------------------------------- descriptors
     def alloc_fd(self, of):
-        fd = FD_BASE
+        # many_fds: the application already holds > 1024 descriptors, so every new one is beyond select()'s FD_SETSIZE
+        fd = FD_BASE + (1100 if self.w.scn.get('many_fds') else 0)
         while fd in self.fds:
             fd += 1
         self.fds[fd] = of
